@@ -10,7 +10,7 @@ from ..oracles import stock as S
 
 PIGGY = True  # thorough tier also runs the repository tests / howtos / examples under these monitors
 LEVEL = "exploration"
-BUDGET = {"quick": 50, "thorough": 330}
+BUDGET = {"quick": 55, "thorough": 330}
 SHARDS = {"quick": 1, "thorough": 16}
 RULE = (
     "every read of the public sf / pdf properties is judged in the wrapper: zero above the diagonal, in [0,1], non-increasing with age, "
@@ -60,7 +60,7 @@ def run(rec, hub, tier, seed, shard, nshards, budget):
     S.register_c08(hub)
     if shard == 0:
         S.check_quadrature_tables(rec, hub.fd)
-    n = 700 if tier == "quick" else 4000
+    n = 500 if tier == "quick" else 4000
     for k in range(n):
         if not budget.ok():
             break
